@@ -140,8 +140,7 @@ structure NewOut (cfg : Config) (a r : Acc) (ch : List Entry) : Prop where
   same : SameBlks a.st.db r.st.db
   sentIn : ∀ e ∈ ch, isSent r.st.db e.blk.id = true
   sentOut : ∀ x, x ∉ ch.map (·.blk.id) → isSent r.st.db x = isSent a.st.db x
-  last : r.st.lastSent = match (ch.filter (fun e => !isSent a.st.db e.blk.id)).getLast? with
-    | some e => some e.blk | none => a.st.lastSent
+  last : r.st.lastSent = (((ch.filter (fun e => !isSent a.st.db e.blk.id)).getLast?).map (·.blk)).or a.st.lastSent
   seen : r.st.lastLIBSeen = a.st.lastLIBSeen
   incl : r.st.includeInit = a.st.includeInit
   cache : r.st.cache = a.st.cache
@@ -204,6 +203,6 @@ theorem foldl_newStep_char (cfg : Config) (hnew : cfg.matches .new = true) (head
           have h1 : (y :: ys).getLast? = some ((y :: ys).getLast (by simp)) := List.getLast?_eq_some_getLast _
           have h2 : (e :: y :: ys).getLast? = some ((y :: ys).getLast (by simp)) := by
             rw [List.getLast?_cons_cons, h1]
-          rw [h1, h2]
+          rw [h1, h2]; rfl
 
 end BstreamVerif.Forkable
